@@ -13,8 +13,14 @@ package main
 //     answered before (id + exact question; bare-header FORMERR/NOTIMP
 //     rejections match by id against the endpoint's own rejected packets);
 //   - its answer section is empty or exactly answerFor(question), authority is
-//     empty, additional holds at most one OPT whose cookie starts with the
-//     cookie this very query carried;
+//     empty (or, below a validated NXDOMAIN cut, a subset of the cut's own
+//     proof records), additional holds at most one OPT whose cookie starts with
+//     the cookie this very query carried and whose scripted EDE, if any, is
+//     this question's;
+//   - its WHOLE header is its own: the section counts are the sections really
+//     present (the strict walk ends at the last byte), and AD / TC / Z are set
+//     only where the reply class can set them (a header left over from the
+//     slab's previous tenant shows in exactly these bits and counts);
 //   - its raw bytes hold no nonce registered by anybody else;
 //   - on a stream connection replies come in query order.
 //
@@ -57,10 +63,13 @@ func answerFor(owner string, qtype, qclass uint16) []dns.RR {
 		return nil
 	}
 	kind := kindOfName(owner)
-	if kind == "p" || kind == "d" || kind == "" {
-		return nil // panic / never-answered names and foreign names have no answer
+	if kind == "p" || kind == "d" || kind == "f" || kind == "x" || kind == "" {
+		return nil // panic / never-answered / failing / denied names and foreign names have no answer
 	}
 	h := qhash(owner, qtype, qclass)
+	if kind == "t" && qtype == dns.TypeTXT {
+		return []dns.RR{sizedTXT(owner, sizedN(owner), h)}
+	}
 	hdr := func() dns.RR_Header {
 		return dns.RR_Header{Name: owner, Rrtype: qtype, Class: dns.ClassINET, Ttl: 300}
 	}
@@ -104,7 +113,146 @@ func kindOfName(name string) string {
 	if strings.HasPrefix(k, "g") {
 		return "g"
 	}
+	if len(k) > 1 && k[0] == 't' && allDigits(k[1:]) {
+		return "t"
+	}
+	if len(k) == 2 && k[0] == 'x' {
+		return "x"
+	}
 	return k
+}
+
+func allDigits(s string) bool {
+	for i := 0; i < len(s); i++ {
+		if s[i] < '0' || s[i] > '9' {
+			return false
+		}
+	}
+	return len(s) > 0
+}
+
+// sizedN is the RDATA length the kind label "t<N>" of a sized name selects.
+func sizedN(name string) int {
+	l := dns.SplitDomainName(strings.ToLower(name))
+	if len(l) != 5 || len(l[2]) < 2 || l[2][0] != 't' || !allDigits(l[2][1:]) {
+		return 0
+	}
+	n := 0
+	for _, c := range l[2][1:] {
+		n = n*10 + int(c-'0')
+		if n > 60000 {
+			return 60000
+		}
+	}
+	return n
+}
+
+// sizedTXT is the answer to a sized question: ONE TXT record whose RDATA is
+// exactly n octets (n >= 1): character-strings of up to 255 octets, each costing
+// its length octet. The text is a function of the question.
+func sizedTXT(owner string, n int, h [32]byte) dns.RR {
+	if n < 1 {
+		n = 1
+	}
+	var txt []string
+	for i := 0; n > 0; i++ {
+		c := n
+		if c > 256 {
+			c = 256
+		}
+		n -= c
+		c-- // the length octet
+		var sb strings.Builder
+		for blk := 0; sb.Len() < c; blk++ {
+			hh := sha256.Sum256(append(h[:], byte(i), byte(blk), 't'))
+			sb.WriteString(b32.EncodeToString(hh[:]))
+		}
+		txt = append(txt, sb.String()[:c])
+	}
+	return &dns.TXT{Hdr: dns.RR_Header{Name: owner, Rrtype: dns.TypeTXT, Class: dns.ClassINET, Ttl: 300}, Txt: txt}
+}
+
+// sizedReplyLen is the length of the whole reply to a sized TXT question as the
+// server sends it: header, question, one TXT record whose owner is a
+// compression pointer to the question, and the bare OPT when the query had one
+// (sized queries carry no EDNS option).
+func sizedReplyLen(name string, edns bool) int {
+	n := 12 + wireNameLen(name) + 4 + 2 + 10 + sizedN(name)
+	if edns {
+		n += 11
+	}
+	return n
+}
+
+func wireNameLen(name string) int {
+	if name == "." {
+		return 1
+	}
+	return len(name) + 1
+}
+
+// nxZone is the signer zone of every validated denial the stub scripts.
+const nxZone = zoneSuffix
+
+// nxCutOf returns the denied name ("x?.c10.test.") a kind-x name lives below.
+func nxCutOf(name string) string {
+	l := dns.SplitDomainName(strings.ToLower(name))
+	if len(l) != 5 {
+		return ""
+	}
+	return l[2] + "." + nxZone
+}
+
+const nxSig = "YzEwLW54ZG9tYWluLWN1dC1zaWduYXR1cmUtcGxhY2Vob2xkZXItYzEwLW54ZG9tYWluLWN1dC1zaWduYXR1cmUtMDAwMDAwMA=="
+
+// nxAuthority is the authority section of the validated NXDOMAIN for every
+// name at or below cut: SOA, the NSEC covering the cut and its subtree, the
+// apex NSEC (no wildcard), each with its RRSIG. A function of the cut alone —
+// it holds no client's bytes.
+func nxAuthority(cut string) []dns.RR {
+	first, rest, _ := strings.Cut(cut, ".")
+	const ttl = 300
+	hdr := func(owner string, t uint16) dns.RR_Header {
+		return dns.RR_Header{Name: owner, Rrtype: t, Class: dns.ClassINET, Ttl: ttl}
+	}
+	sig := func(owner string, covered uint16) dns.RR {
+		return &dns.RRSIG{Hdr: hdr(owner, dns.TypeRRSIG), TypeCovered: covered, Algorithm: dns.ECDSAP256SHA256,
+			Labels: uint8(dns.CountLabel(owner)), OrigTtl: ttl, Expiration: 2000000000, Inception: 1700000000,
+			KeyTag: 4242, SignerName: nxZone, Signature: nxSig}
+	}
+	prev := first[:len(first)-1] + string(first[len(first)-1]-1) + "~." + rest
+	return []dns.RR{
+		&dns.SOA{Hdr: hdr(nxZone, dns.TypeSOA), Ns: "ns." + nxZone, Mbox: "hostmaster." + nxZone,
+			Serial: 10, Refresh: 3600, Retry: 600, Expire: 86400, Minttl: ttl},
+		sig(nxZone, dns.TypeSOA),
+		&dns.NSEC{Hdr: hdr(prev, dns.TypeNSEC), NextDomain: first + "!." + rest,
+			TypeBitMap: []uint16{dns.TypeA, dns.TypeRRSIG, dns.TypeNSEC}},
+		sig(prev, dns.TypeNSEC),
+		&dns.NSEC{Hdr: hdr(nxZone, dns.TypeNSEC), NextDomain: "+." + nxZone,
+			TypeBitMap: []uint16{dns.TypeNS, dns.TypeSOA, dns.TypeRRSIG, dns.TypeNSEC, dns.TypeDNSKEY}},
+		sig(nxZone, dns.TypeNSEC),
+	}
+}
+
+// rrKeyNoTTL renders a record with its TTL zeroed (the cache counts TTLs down).
+func rrKeyNoTTL(rr dns.RR) string {
+	c := dns.Copy(rr)
+	c.Header().Ttl = 0
+	return strings.ToLower(c.String())
+}
+
+const edeMarker = "c10-ede-"
+
+var edeCodes = []uint16{dns.ExtendedErrorCodeStaleAnswer, dns.ExtendedErrorCodeDNSSECIndeterminate,
+	dns.ExtendedErrorCodeDNSKEYMissing, dns.ExtendedErrorCodeRRSIGsMissing, dns.ExtendedErrorCodeProhibited,
+	dns.ExtendedErrorCodeNoReachableAuthority, dns.ExtendedErrorCodeInvalidData}
+
+// edeFor is the Extended DNS Error the stub attaches to its answer for a
+// kind-e question: code and text are functions of the question.
+func edeFor(name string, qtype, qclass uint16) (uint16, string) {
+	h := qhash(name, qtype, qclass)
+	hh := sha256.Sum256(append(h[:], 'e'))
+	return edeCodes[int(h[9])%len(edeCodes)], edeMarker + b32.EncodeToString(hh[:12])
 }
 
 func isNonce(s string) bool {
@@ -201,6 +349,22 @@ func scanForeign(raw []byte, own string) (string, string, int) {
 	return "", "", -1
 }
 
+// scanForeignSkipping is scanForeign that ignores every nonce in mine.
+func scanForeignSkipping(raw []byte, mine map[string][]*query) (string, string, int) {
+	off := 0
+	for off < len(raw) {
+		n, who, at := scanForeign(raw[off:], "")
+		if n == "" {
+			return "", "", -1
+		}
+		if len(mine[n]) == 0 {
+			return n, who, off + at
+		}
+		off += at + 1
+	}
+	return "", "", -1
+}
+
 // ---------------------------------------------------------------- wire helpers
 
 type whdr struct {
@@ -208,6 +372,12 @@ type whdr struct {
 	flags          uint16
 	qd, an, ns, ar uint16
 }
+
+const (
+	flagTC = 0x0200
+	flagZ  = 0x0040
+	flagAD = 0x0020
+)
 
 func (h whdr) qr() bool    { return h.flags&0x8000 != 0 }
 func (h whdr) tc() bool    { return h.flags&0x0200 != 0 }
@@ -331,11 +501,16 @@ const (
 	kNotimp                // foreign opcode → bare NOTIMP
 	kOversize              // UDP datagram larger than the slab class: dropped
 	kDenied                // sent from a source the access list denies
+	kSized                 // "t<N>": TXT whose RDATA is N octets — the question selects the reply size
+	kFail                  // "f": the stub answers SERVFAIL, which the RFC 9520 failure cache records
+	kFailHit               // re-ask of a failing question (own or shared with other clients): cached-failure rungs
+	kNX                    // "x?": a name below a validated NXDOMAIN cut (RFC 8020 rung once the cut is filed)
+	kEDE                   // "e": f(Q) plus an Extended DNS Error that is a function of the question
 	nKinds
 )
 
 var kindNames = [...]string{"normal", "hit", "shared", "slow", "decoded", "large", "panic", "drop", "badclass",
-	"qr1", "short", "garbage", "badcount", "notimp", "oversize", "denied"}
+	"qr1", "short", "garbage", "badcount", "notimp", "oversize", "denied", "sized", "fail", "failhit", "nxcut", "ede"}
 
 func (k qkind) String() string { return kindNames[k] }
 
@@ -356,7 +531,17 @@ func (k qkind) headerOnly() bool { return k == kGarbage || k == kBadCount || k =
 // wantsAnswer: a NOERROR, non-truncated reply must carry f(Q).
 func (k qkind) wantsAnswer() bool {
 	switch k {
-	case kNormal, kHit, kShared, kSlow, kDecoded, kLarge:
+	case kNormal, kHit, kShared, kSlow, kDecoded, kLarge, kSized, kEDE:
+		return true
+	}
+	return false
+}
+
+// smallReply: every reply the server can produce for this kind is far below
+// any UDP limit, so truncation cannot be what set TC.
+func (k qkind) smallReply() bool {
+	switch k {
+	case kFail, kFailHit, kPanic, kDrop, kBadClass, kGarbage, kBadCount, kNotimp:
 		return true
 	}
 	return false
@@ -378,10 +563,12 @@ type query struct {
 	Answered int `json:"answered,omitempty"`
 
 	pkt      []byte
+	edns     bool // the packet carries an OPT record
 	sent     atomic.Bool
 	sentAt   time.Time
 	answered atomic.Int32
 	lost     bool
+	replyLen int // length of the unit that answered it (set by judge under ep.mu)
 }
 
 func (q *query) forReplay() *query {
@@ -417,6 +604,10 @@ type endpoint struct {
 	notify   chan struct{}
 	counters map[string]int
 	onMatch  func(ep *endpoint, q *query) // round bookkeeping (evidence only)
+	// cur is the query the unit being judged was matched to (its answered count
+	// already includes this unit): a replay case records the count BEFORE it
+	cur         *query
+	prevLastSeq int
 }
 
 func newEndpoint(r *vlib.Run, round, label, tr, src string) *endpoint {
@@ -481,8 +672,15 @@ func (ep *endpoint) mkCase(raw []byte, matched *query, note string) *violationCa
 	if len(vc.RawHex) > 4000 {
 		vc.RawHex = vc.RawHex[:4000]
 	}
+	fr := func(q *query) *query {
+		c := q.forReplay()
+		if q == ep.cur && c.Answered > 0 {
+			c.Answered--
+		}
+		return c
+	}
 	if matched != nil {
-		vc.Matched = matched.forReplay()
+		vc.Matched = fr(matched)
 	}
 	n := len(ep.sentQ)
 	lo := 0
@@ -490,10 +688,14 @@ func (ep *endpoint) mkCase(raw []byte, matched *query, note string) *violationCa
 		lo = n - 40
 	}
 	for _, q := range ep.sentQ[lo:] {
-		vc.Sent = append(vc.Sent, q.forReplay())
+		vc.Sent = append(vc.Sent, fr(q))
 	}
 	if matched != nil && matched.Seq < lo {
-		vc.Sent = append(vc.Sent, matched.forReplay())
+		vc.Sent = append(vc.Sent, fr(matched))
+	}
+	if ep.cur != nil && ep.stream {
+		// the stream-order state as it was before this unit
+		vc.LastSeq = ep.prevLastSeq
 	}
 	return vc
 }
@@ -585,6 +787,11 @@ func (ep *endpoint) judge(raw []byte, fixed *query) *query {
 		if h.an != 0 || h.ns != 0 || h.ar != 0 {
 			ep.violate("content/records-without-question/"+ep.tr, "reply without question section carries records", raw, q, "")
 		}
+		if h.flags&(flagTC|flagZ|flagAD) != 0 {
+			ep.violate("header/foreign-flag-bare/"+ep.tr, fmt.Sprintf("the engine's bare-header rejection carries flags %#04x: TC, Z and AD are never set on it", h.flags), raw, q, "")
+		} else {
+			ep.counters["headers_verified_bare"]++
+		}
 	} else {
 		name, qtype, qclass, ok := wireQuestion(raw)
 		if !ok {
@@ -669,6 +876,11 @@ func (ep *endpoint) judge(raw []byte, fixed *query) *query {
 	}
 
 	// ---- q is the query this unit answers
+	if q.replyLen == 0 {
+		q.replyLen = len(raw)
+	}
+	ep.cur, ep.prevLastSeq = q, ep.lastSeq
+	defer func() { ep.cur = nil }()
 	first := q.answered.Add(1) == 1
 	ep.counters["matched_"+ep.tr]++
 	ep.counters["matched_kind_"+q.Kind.String()]++
@@ -733,7 +945,14 @@ func (ep *endpoint) caseViolation(raw []byte, q *query, got string) {
 }
 
 func (ep *endpoint) foreignScan(raw []byte, own string, q *query) {
-	if n, who, at := scanForeign(raw, own); n != "" {
+	n, who, at := scanForeign(raw, own)
+	if n != "" && own == "" && len(ep.byNonce[n]) > 0 {
+		// a unit that could not be tied to one query (unparseable, unmatched) and
+		// holds a nonce this very endpoint sent: not another client's bytes. Look
+		// past this endpoint's own nonces.
+		n, who, at = scanForeignSkipping(raw, ep.byNonce)
+	}
+	if n != "" {
 		ep.violate("bytes/foreign-nonce/"+ep.tr, fmt.Sprintf("the received bytes contain nonce %s at offset %d, which belongs to %s", n, at, who), raw, q, who)
 	}
 }
@@ -752,6 +971,8 @@ func (ep *endpoint) content(raw []byte, h whdr, q *query) {
 	if !q.Kind.wantsAnswer() {
 		want = nil
 	}
+	nk := kindOfName(q.Name)
+	ep.header(raw, h, q, m, nk, want)
 	if len(m.Answer) > 0 {
 		bad := len(m.Answer) != len(want)
 		if !bad {
@@ -777,17 +998,52 @@ func (ep *endpoint) content(raw []byte, h whdr, q *query) {
 			ep.violate("content/answer-missing/"+ep.tr, fmt.Sprintf("NOERROR reply to %s type %d carries no answer although f(question) has %d records", q.Name, q.Qtype, len(want)), raw, q, "")
 		}
 	}
-	if len(m.Ns) > 0 {
+	switch {
+	case len(m.Ns) == 0:
+	case nk == "x" && q.Qclass == dns.ClassINET:
+		// below a validated NXDOMAIN cut: only the cut's own proof records
+		own := map[string]bool{}
+		for _, rr := range nxAuthority(nxCutOf(q.Name)) {
+			own[rrKeyNoTTL(rr)] = true
+		}
+		bad := ""
+		for _, rr := range m.Ns {
+			if !own[rrKeyNoTTL(rr)] {
+				bad = rr.String()
+				break
+			}
+		}
+		if bad != "" {
+			ep.violate("content/foreign-records/"+ep.tr, "authority section of a reply below the cut "+nxCutOf(q.Name)+" holds a record that is not part of that cut's proof: "+bad, raw, q, fmt.Sprint(m.Ns))
+		} else {
+			ep.counters["nxcut_authority_verified_"+ep.tr]++
+		}
+	default:
 		ep.violate("content/foreign-records/"+ep.tr, fmt.Sprintf("authority section holds %d records nobody generated for this question", len(m.Ns)), raw, q, fmt.Sprint(m.Ns))
 	}
+	opts := 0
 	for _, rr := range m.Extra {
 		opt, ok := rr.(*dns.OPT)
 		if !ok {
 			ep.violate("content/foreign-records/"+ep.tr, "additional section holds a record nobody generated for this question: "+rr.String(), raw, q, "")
 			continue
 		}
+		if opts++; opts > 1 {
+			ep.violate("content/foreign-records/"+ep.tr, "additional section holds a second OPT record", raw, q, "")
+			continue
+		}
 		for _, o := range opt.Option {
 			switch v := o.(type) {
+			case *dns.EDNS0_EDE:
+				if !strings.HasPrefix(v.ExtraText, edeMarker) {
+					break // the server's own EDE (cached failure, …): no client's bytes
+				}
+				code, text := edeFor(q.Name, q.Qtype, q.Qclass)
+				if nk != "e" || v.ExtraText != text || v.InfoCode != code {
+					ep.violate("content/foreign-ede/"+ep.tr, fmt.Sprintf("reply carries the scripted Extended DNS Error %d %q, which is not the one of this question", v.InfoCode, v.ExtraText), raw, q, "")
+				} else {
+					ep.counters["ede_verified_"+ep.tr]++
+				}
 			case *dns.EDNS0_COOKIE:
 				cc := v.Cookie
 				if len(cc) > 16 {
@@ -808,6 +1064,61 @@ func (ep *endpoint) content(raw []byte, h whdr, q *query) {
 					ep.violate("content/foreign-nsid/"+ep.tr, "reply carries an NSID that is not the server's: "+v.Nsid, raw, q, "")
 				}
 			}
+		}
+	}
+}
+
+// header judges the header of a reply that carries a question: every bit and
+// count of it must be this reply's own. A composer that builds in the slab's TX
+// buffer and does not write some header field sends the previous tenant's.
+func (ep *endpoint) header(raw []byte, h whdr, q *query, m *dns.Msg, nk string, want []dns.RR) {
+	bad := false
+	if int(h.an) != len(m.Answer) || int(h.ns) != len(m.Ns) || int(h.ar) != len(m.Extra) || h.qd != 1 {
+		bad = true
+		ep.violate("header/count-mismatch/"+ep.tr, fmt.Sprintf("header announces qd=%d an=%d ns=%d ar=%d, the message holds %d/%d/%d/%d", h.qd, h.an, h.ns, h.ar,
+			len(m.Question), len(m.Answer), len(m.Ns), len(m.Extra)), raw, q, "")
+	}
+	if h.flags&flagZ != 0 {
+		bad = true
+		ep.violate("header/foreign-flag-z/"+ep.tr, fmt.Sprintf("reply flags %#04x: the reserved Z bit is set; no query of this workload and no scripted answer sets it", h.flags), raw, q, "")
+	}
+	if h.flags&flagAD != 0 && nk != "x" {
+		// the only authenticated data of this workload is the validated denial
+		// below an NXDOMAIN cut; every other scripted answer is AD=0
+		bad = true
+		ep.violate("header/foreign-flag-ad/"+ep.tr, fmt.Sprintf("reply flags %#04x (rcode %d): AD is set on a reply whose class (%s) never has authenticated data", h.flags, h.rcode(), q.Kind), raw, q, "")
+	}
+	if h.tc() {
+		// the server truncates on UDP only, and a truncated reply is emptied
+		// (question + OPT); it is a truncation only when the whole reply could
+		// not fit the smallest limit a client can have (512)
+		why := ""
+		switch {
+		case ep.tr != "udp":
+			why = "TC on a transport that never truncates"
+		case h.an != 0 || h.ns != 0:
+			why = "TC on a reply that still carries records (truncation empties the sections)"
+		case q.Kind.smallReply() || nk == "f":
+			why = "TC on a reply class that is a few dozen octets long"
+		default:
+			full := &dns.Msg{Compress: true, Question: []dns.Question{{Name: q.Name, Qtype: q.Qtype, Qclass: q.Qclass}}, Answer: want}
+			if nk == "x" {
+				full.Ns = nxAuthority(nxCutOf(q.Name))
+			}
+			// + the largest OPT the server appends (cookie, NSID, EDE): < 160
+			if n := full.Len() + 160; n < 512 {
+				why = fmt.Sprintf("TC although the whole reply is at most %d octets", n)
+			}
+		}
+		if why != "" {
+			bad = true
+			ep.violate("header/foreign-flag-tc/"+ep.tr, fmt.Sprintf("reply flags %#04x: %s", h.flags, why), raw, q, "")
+		}
+	}
+	if !bad {
+		ep.counters["headers_verified_"+ep.tr]++
+		if nk == "f" {
+			ep.counters["headers_verified_failure_"+ep.tr]++
 		}
 	}
 }
